@@ -137,7 +137,7 @@ struct Origin {
 
 fn origins(tier: &str, rng: &mut Rng) -> Vec<Origin> {
 	let mut out = Vec::new();
-	let mut ktypes = vec!["ed25519", "p256", "p384", "p521", "rsa2048", "rsa3072"];
+	let mut ktypes = vec!["ed25519", "p256", "p384", "p521", "rsa2048", "rsa3072", "rsa8192"];
 	if tier != "quick" {
 		ktypes.push("rsa4096");
 	}
